@@ -402,7 +402,8 @@ def lifecycle_cases(requests=('incr', 'decr', 'set', 'restart', 'reload',
                     children=0, max_ops=30, statuses_full=False,
                     extra_watcher_opts=None, kill_cmd=False, signal_cmd=False,
                     respawn_false=False, rm=False, quit=False,
-                    set_other=False, config=False, job_control=False):
+                    set_other=False, config=False, job_control=False,
+                    ondemand=False):
     """General history generator shared by several properties."""
     from hypothesis import strategies as st
 
@@ -553,6 +554,24 @@ def lifecycle_cases(requests=('incr', 'decr', 'set', 'restart', 'reload',
                                       pacing_ops(), deaths, deaths),
                             min_size=1, max_size=max_ops))
         c = {"watchers": watchers, "tape": tape, "ops": ops}
+        if ondemand and not use_config and draw(st.integers(0, 3)) == 0:
+            # one on-demand watcher on a real managed socket; connections
+            # are the socket events, noticed by the next periodic check
+            wc = watchers[0]
+            wc["on_demand"] = True
+            wc["use_sockets"] = True
+            if not wc.get("singleton"):
+                wc["numprocesses"] = draw(st.integers(1, 3))
+            c["sockets"] = [draw(st.sampled_from(['unix', 'inet']))]
+            for _ in range(draw(st.integers(1, 3))):
+                pos = draw(st.integers(0, len(ops)))
+                burst = [["conn", 0]]
+                if draw(st.integers(0, 4)) > 0:
+                    burst.append(["check"])
+                    burst += draw(st.lists(st.sampled_from(
+                        [["idle"], ["step", 1], ["next"], ["adv", 0.05],
+                         ["drain"]]), max_size=2))
+                ops[pos:pos] = burst
         if use_config:
             c["config"] = True
             for wc in watchers:
